@@ -1,5 +1,6 @@
 #!/bin/bash
 # reseed.sh : re-run every stored seeded change against the check of its property; prints caught / MISSED / does-not-apply
+export ADLT_VERIF_EVIDENCE_DIR=/tmp/adlt-verif-scratch-evidence
 cd /repo || exit 2
 if ! git diff --quiet; then echo "ERROR: /repo has uncommitted changes"; exit 2; fi
 for d in /verif/seeded/*/; do
